@@ -749,7 +749,7 @@ Proof.
   - destruct (IH _ H) as (c' & I & T'). exists c'; split; auto. right; auto.
 Qed.
 
-Lemma candidate_lists_length : forall ns ids used, List.length (candidate_lists ns g ids used) = List.length ids.
+Lemma candidate_lists_length : forall ns ids used, List.length (candidate_lists fl ns g ids used) = List.length ids.
 Proof. induction ids as [| [i|] t IH]; intros used; simpl; auto. Qed.
 
 Lemma product_head : forall (r : nid) ls c, In c (product ([r] :: ls)) -> hd_error c = Some r.
